@@ -1045,7 +1045,7 @@ func (r *run) callBuiltin(caller *frame, callpos token.Pos, fn *ssa.Builtin, arg
 			}
 			return int64(len(x.buf))
 		case *sym:
-			return &sym{"(str.len " + x.t + ")", SInt}
+			return &sym{lenTerm(x.t), SInt}
 		default:
 			panic(fmt.Sprintf("len: illegal operand: %T", x))
 		}
@@ -1347,4 +1347,18 @@ func (r *run) nameIfLarge(v value) value {
 		r.solver.Assert("(= " + n.t + " " + s.t + ")")
 	}
 	return &sym{n.t, s.sort}
+}
+
+
+// lenTerm: the length of a string term; the length of a prefix (str.substr X 0 K) is given
+// arithmetically as min(max(K,0), len X), which spares the string solver a substr reasoning step.
+func lenTerm(t string) string {
+	if strings.HasPrefix(t, "(str.substr ") {
+		if e := parseSexp(t); e != nil && len(e.list) == 4 && e.list[2].String() == "0" {
+			x, k := e.list[1].String(), e.list[3].String()
+			lx := lenTerm(x)
+			return "(ite (<= " + k + " 0) 0 (ite (<= " + k + " " + lx + ") " + k + " " + lx + "))"
+		}
+	}
+	return "(str.len " + t + ")"
 }
